@@ -126,8 +126,11 @@ func (x *Exec) libCall(key string, fn *types.Func, call *ast.CallExpr, recvExpr 
 			break
 		}
 		s := arg(0)
-		a := x.W.Fresh("trimA", SInt)
-		n := x.W.Fresh("trimN", SInt)
+		// deterministic: the trimmed window is a function of the argument
+		x.W.DeclareFun("trimA", []Sort{strSort}, SInt)
+		x.W.DeclareFun("trimN", []Sort{strSort}, SInt)
+		a := x.named("trimA", T("(trimA "+s.S+")", SInt))
+		n := x.named("trimN", T("(trimN "+s.S+")", SInt))
 		r := x.W.MkSeq(strSort, x.W.SeqBase(s), Arith("+", x.W.SeqOff(s), a), n)
 		r.GoT = types.Typ[types.String]
 		r = x.sliceFacts(r, s, a)
